@@ -136,3 +136,10 @@ def internal_memo():
         return get_shape_memo()
     except Exception:
         return None
+
+
+def exec_src(src, ns, filename="<jtv-generated>"):
+    """exec generated source WITHOUT inheriting this package's `from __future__ import
+    annotations` (which would stringify every annotation of the generated function)."""
+    exec(compile(src, filename, "exec", dont_inherit=True), ns)
+    return ns
